@@ -69,6 +69,9 @@ func main() {
 				}
 			}()
 			fn(ctx, r)
+			for _, lp := range ctx.loadProblems {
+				r.undecided("load", "module", lp, "-")
+			}
 			if !*noControls {
 				if cf, ok := controls[id]; ok {
 					if cctx == nil {
